@@ -8,6 +8,7 @@ package main
 import (
 	"strconv"
 	"strings"
+	"time"
 
 	"verif/internal/rng"
 )
@@ -142,6 +143,38 @@ func convStream(c *Ctx) {
 		default:
 			emit(genDur(r), "dur")
 		}
+	}
+	// time.Duration.String against Strconv.durString, and the round trip mage relies on (-t d travels as MAGEFILE_TIMEOUT=d.String())
+	emitDur := func(d int64, kind string) {
+		s := time.Duration(d).String()
+		impl := J{"s": s, "back": nil}
+		if v, err := time.ParseDuration(s); err == nil {
+			impl["back"] = strconv.FormatInt(int64(v), 10)
+		}
+		c.Emit(J{"op": "conv.durfmt", "d": strconv.FormatInt(d, 10)}, impl, "durfmt", kind)
+	}
+	for _, d := range []int64{0, 1, 999, 1000, 1001, 999999, 1000000, 1000001, 999999999, 1000000000, 1000000001, 59999999999, 60000000000, 3599999999999, 3600000000000,
+		3600000000001, 90061001001001, 9223372036854775807, -9223372036854775808, -1, -1500000000, 1500000000, 100, 1100, 1010000, 1000100000} {
+		emitDur(d, "corpus")
+	}
+	for i := 0; i < c.N/4; i++ {
+		var d int64
+		switch r.Intn(5) {
+		case 0:
+			d = int64(r.U64())
+		case 1:
+			d = int64(r.U64() % 1000000000)
+		case 2:
+			d = int64(r.U64()%100000) * []int64{1, 1000, 1000000, 1000000000, 60000000000, 3600000000000}[r.Intn(6)]
+		case 3:
+			d = int64(r.U64() % 4000000000000000)
+		default:
+			d = int64(r.U64()%86400) * 1000000000
+		}
+		if r.Chance(1, 8) {
+			d = -d
+		}
+		emitDur(d, "random")
 	}
 	if c.Tier == "thorough" {
 		// small scope exhaustively: every word of length <= 4 over an alphabet of the syntax characters
